@@ -32,12 +32,19 @@ Screen(routine, corrs) ==
       hit == {i \in 1..Len(T) : T[i][2] \cap corrs # {}}
   IN IF hit = {} THEN 0 ELSE -T[CHOOSE i \in hit : \A k \in hit : i <= k][1]
 
-\* ---- generator: every single-argument corruption of every routine ----
+\* ---- generator: every single-argument corruption of every routine, for the expert drivers under each of the four
+\* Fact modes (an "otherwise valid call" may be a first factorization, a refactorization or a solve with supplied
+\* factors), and every pair of corruptions (the position reported is that of the FIRST offending argument) ----
+Modes(r) == IF r \in {"gssvx", "gsisx"} THEN 0 .. 3 ELSE {0}
+Effective(r, corrs, mode) == IF r \in {"gssvx", "gsisx"} /\ mode # 3 THEN corrs \ NeedsFactored ELSE corrs
 VARIABLE done
 Init == done = FALSE
 Next == /\ ~done /\ done' = TRUE
-        /\ \A r \in Routines : \A c \in AllCorr(r) :
-              PrintT(ToJson([routine |-> r, corrupt |-> c, expect |-> Screen(r, {c}), factored |-> (c \in NeedsFactored)]))
+        /\ \A r \in Routines : \A c \in AllCorr(r) : \A m \in Modes(r) :
+              PrintT(ToJson([routine |-> r, corrupt |-> <<c>>, expect |-> Screen(r, Effective(r, {c}, m)), mode |-> m]))
+        /\ \A r \in Routines : \A cc \in {x \in SUBSET AllCorr(r) : Cardinality(x) = 2} : \A m \in Modes(r) \cap {0, 3} :
+              LET a == CHOOSE x \in cc : TRUE  b == CHOOSE x \in cc : x # a IN
+              PrintT(ToJson([routine |-> r, corrupt |-> <<a, b>>, expect |-> Screen(r, Effective(r, cc, m)), mode |-> m]))
 Spec == Init /\ [][Next]_done
 \* sanity of the tables: positions strictly increasing, a corruption is blamed on one position only
 TablesOK == \A r \in Routines : LET T == Table(r) IN
